@@ -213,6 +213,12 @@ def check(ctx):
         ctx.check(good, "R16.3", "with_input/find_map-with-key-equality", detail, f.at(),
                   bad_detail="the HashMap::iter in with_input must flow only into find_map whose closure returns Some only under key == name; " + detail)
 
+    # the key type's equality/hash are the compiler-derived ones (so "key == name" identifies at most one entry)
+    vn = "push::instruction::variable_name::VariableName"
+    for tr in ("std::cmp::PartialEq", "std::cmp::Eq", "std::hash::Hash"):
+        ims = [im for im in F.impls if im.get("trait") == tr and im["self"].get("path") == vn]
+        ctx.check(len(ims) == 1 and ims[0]["derived"], "R16.3", "VariableName/%s-derived" % tr.split("::")[-1], "%d impl(s), derived=%s" % (len(ims), [i["derived"] for i in ims]),
+                  ims[0]["span"]["at"] if ims else None)
     # ---- R16.4 ----------------------------------------------------------------------
     n_args = 0
     for f in lib:
